@@ -17,10 +17,10 @@ func init() {
 		Prop:   "C20",
 		Run:    run,
 		Replay: replay,
-		Rule: "E1 over module sets x all filter combinations with a differential oracle: a generator places config true/false/absent at every position of tree skeletons (containers, lists, leaves, leaf-lists, choices with cases and default cases, up to 3 levels), plus fixed sets with opd:command/option/argument nodes, lists whose key is the only configuration node, choices whose default case is state-only, groupings/augments/rpcs; each set is compiled without a filter and with each of 21 filters (nil, IsConfig, IsState, IsOpd, IsConfigOrState, Include and Exclude of every subset of the three predicates, IncludeState true/false). " +
+		Rule: "E1 over module sets x all filter combinations with a differential oracle: a generator places config true/false/absent at every position of tree skeletons (containers, lists, leaves, leaf-lists, choices with cases and default cases under containers, lists, nested lists, cases and at the module top, up to 3 levels), plus fixed sets with opd:command/option/argument nodes, lists whose key is the only configuration node, choices whose default case is state-only, groupings/augments/rpcs; each set is compiled without a filter and with each of 21 filters (nil, IsConfig, IsState, IsOpd, IsConfigOrState, Include and Exclude of every subset of the three predicates, IncludeState true/false). " +
 			"The dump of the filtered compile must equal the dump of the unfiltered compile after removing every node that fails the filter together with its subtree (the predicates are re-implemented on the dump's own kind/config fields); a filter must never turn a compilable set into an error. Non-trivial = the filter removes at least one node but not all.",
 		Bound: map[string]string{
-			"quick":    "skeletons with <= 4 config positions x 3 values + 14 fixed sets, x 21 filters",
+			"quick":    "8 skeletons with 4 config positions x 3 values + 16 fixed sets, x 21 filters",
 			"thorough": "skeletons with <= 6 config positions",
 		},
 		Assumptions: []string{"defchildren/hasdefault of a parent legitimately change when a child carrying a default is pruned: these two derived fields are recomputed by the pruning reference"},
@@ -87,28 +87,61 @@ func filters() []filt {
 	return out
 }
 
-// prune removes every record whose node fails keep, with its subtree, and
-// recomputes the parents' derived default fields.
+// prune removes every record whose node fails keep, with its subtree.  The dump
+// lists a node under several alias paths (the data view, in which choices and
+// cases are transparent, and the structural view through {choice ...} elements):
+// a node that is removed under one alias is removed under all of them.
 func prune(recs []gen.Rec, keep func(kind string, config bool) bool) []gen.Rec {
-	var out []gen.Rec
-	var cut []string
+	kindAt := map[string]string{}
 	for _, r := range recs {
-		if !strings.HasPrefix(r.Path, "/") && !strings.Contains(r.Path, "/") {
-			out = append(out, r) // module / submodule records
-			continue
+		kindAt[r.Path] = r.Fields["kind"]
+	}
+	// canonical data path of a record: choice and case elements dropped, a data
+	// node reached through a {choice name} element called by its name
+	canon := func(path string) string {
+		parts := strings.Split(path, "/")
+		var out []string
+		for i, el := range parts {
+			if strings.HasPrefix(el, "{choice ") {
+				k := kindAt[strings.Join(parts[:i+1], "/")]
+				if (k == "choice" || k == "case") && i != len(parts)-1 {
+					continue
+				}
+				if k != "choice" && k != "case" {
+					el = strings.TrimSuffix(strings.TrimPrefix(el, "{choice "), "}")
+				}
+			}
+			out = append(out, el)
 		}
-		skip := false
-		for _, c := range cut {
-			if strings.HasPrefix(r.Path, c+"/") {
-				skip = true
+		return strings.Join(out, "/")
+	}
+	isTree := func(p string) bool { return strings.HasPrefix(p, "/") || strings.Contains(p, "/") }
+	var cut []string
+	under := func(p string, set []string) bool {
+		for _, c := range set {
+			if p == c || strings.HasPrefix(p, c+"/") {
+				return true
 			}
 		}
-		if skip {
+		return false
+	}
+	for _, r := range recs {
+		if !isTree(r.Path) || under(r.Path, cut) {
 			continue
 		}
-		kind, ok := r.Fields["kind"]
-		if ok && !keep(kind, r.Fields["config"] == "true") {
+		if kind, ok := r.Fields["kind"]; ok && !keep(kind, r.Fields["config"] == "true") {
 			cut = append(cut, r.Path)
+		}
+	}
+	var dead []string
+	for _, r := range recs {
+		if isTree(r.Path) && under(r.Path, cut) {
+			dead = append(dead, canon(r.Path))
+		}
+	}
+	var out []gen.Rec
+	for _, r := range recs {
+		if isTree(r.Path) && (under(r.Path, cut) || under(canon(r.Path), dead)) {
 			continue
 		}
 		out = append(out, r)
@@ -196,6 +229,20 @@ func skeletons() []skel {
 		{func(c []string) string {
 			return fmt.Sprintf("container top {%s container mid {%s container low {%s leaf deep { type string;%s } } leaf m { type string; } } leaf t { type string; } }", cfgStmt(c[0]), cfgStmt(c[1]), cfgStmt(c[2]), cfgStmt(c[3]))
 		}, 4},
+		// a choice with a default case directly under a list / at the top of the module /
+		// inside a case of another choice / under a list inside a list
+		{func(c []string) string {
+			return fmt.Sprintf("list li {%s key k; leaf k { type string; } choice ch {%s default c1; case c1 { leaf a1 { type string;%s } } case c2 { leaf b1 { type string;%s } } } }", cfgStmt(c[0]), cfgStmt(c[1]), cfgStmt(c[2]), cfgStmt(c[3]))
+		}, 4},
+		{func(c []string) string {
+			return fmt.Sprintf("choice ch {%s default c1; case c1 { leaf a1 { type string;%s } } case c2 { container b {%s leaf b1 { type string;%s } } } }", cfgStmt(c[0]), cfgStmt(c[1]), cfgStmt(c[2]), cfgStmt(c[3]))
+		}, 4},
+		{func(c []string) string {
+			return fmt.Sprintf("container o {%s choice outer { case oc { choice ch {%s default c1; case c1 { leaf a1 { type string;%s } } case c2 { leaf b1 { type string;%s } } } } leaf alt { type string; } } }", cfgStmt(c[0]), cfgStmt(c[1]), cfgStmt(c[2]), cfgStmt(c[3]))
+		}, 4},
+		{func(c []string) string {
+			return fmt.Sprintf("list lo {%s key k; leaf k { type string; } list li {%s key j; leaf j { type string; } choice ch {%s default c1; leaf c1 { type string; } leaf c2 { type string;%s } } leaf-list ll { type string; } } }", cfgStmt(c[0]), cfgStmt(c[1]), cfgStmt(c[2]), cfgStmt(c[3]))
+		}, 4},
 	}
 }
 
@@ -217,6 +264,8 @@ func fixedSets() map[string]map[string]string {
 		"mixed-depth":          {"a": h("a", "container a1 { container a2 { config false; container a3 { leaf a4 { type string; } } } leaf b2 { type string; } container c2 { leaf c3 { type string; config false; } leaf c4 { type string; } } }")},
 		"leaflist-and-defaults": {"a": h("a", "container c { leaf-list ll { type string; config false; } leaf d1 { type string; default a; } leaf d2 { type string; config false; default b; } container n { leaf d3 { type string; config false; default c; } } }")},
 		"must-when":            {"a": h("a", "container c { must \"l = 'x'\"; leaf l { type string; } leaf s { type string; config false; when \"../l\"; } }")},
+		"choice-default-in-rpc-and-grouping": {"a": h("a", "grouping g { choice gch { default g1; leaf g1 { type string; } leaf g2 { type string; config false; } } } list li { key k; leaf k { type string; } uses g; } rpc r { input { choice ich { default i1; leaf i1 { type string; } leaf i2 { type string; } } } } container st { config false; list sl { key k; leaf k { type string; } uses g; } }")},
+		"choice-default-augmented-into-list": {"a": h("a", "list li { key k; leaf k { type string; } }"), "b": "module b { namespace \"urn:b\"; prefix b; import a { prefix a; } augment /a:li { choice bch { config false; default b1; leaf b1 { type string; } leaf b2 { type string; } } } }"},
 		"two-modules":          {"a": h("a", "container ca { leaf l { type string; } leaf s { type string; config false; } }"), "b": "module b { namespace \"urn:b\"; prefix b; container cb { config false; leaf l { type string; } } leaf top { type string; } }"},
 	}
 }
